@@ -41,6 +41,9 @@ nearest new_line nint not null pack precision present product radix random_numbe
 real repeat reshape rrspacing same_type_as scale scan selected_char_kind selected_int_kind
 selected_real_kind set_exponent shape sign sin sinh size spacing spread sqrt sum system_clock tan tanh
 tiny transfer transpose trim ubound unpack verify
+alog alog10 amax0 amax1 amin0 amin1 amod cabs ccos cexp clog csin csqrt dabs dacos dasin datan datan2 dcos
+dcosh ddim dexp dint dlog dlog10 dmax1 dmin1 dmod dnint dsign dsin dsinh dsqrt dtan dtanh float iabs idim
+idint idnint ifix isign max0 max1 min0 min1 sngl
 """.split()
 )
 INTRINSICS_08 = set(
